@@ -117,7 +117,7 @@ fn classify(op: &str, imp: &str, model: &str) -> String {
         return "status".into();
     }
     // query operations: their output *is* an outcome the properties talk about
-    if matches!(op, "matrix" | "decaps" | "covers" | "c08" | "pke_dec" | "hdr_dec" | "parse") {
+    if matches!(op, "matrix" | "decaps" | "covers" | "c08" | "pke_dec" | "hdr_dec" | "parse" | "trace_check") {
         return "behaviour".into();
     }
     "state".into()
